@@ -2,11 +2,22 @@ use std::collections::HashMap;
 use std::path::PathBuf;
 use sv_parser::*;
 
+/// run f; a panic of the code under test is a result (Err(message)), not the end of the enumeration
+fn guarded<T>(f: impl FnOnce() -> T) -> Result<T, String> {
+    std::panic::catch_unwind(std::panic::AssertUnwindSafe(f)).map_err(|e| {
+        if let Some(s) = e.downcast_ref::<&str>() { s.to_string() } else if let Some(s) = e.downcast_ref::<String>() { s.clone() } else { "panic".to_string() }
+    })
+}
+
 fn main() {
+    if std::env::args().nth(1).map(|c| c.ends_with("bound") || c == "c03long").unwrap_or(false) {
+        std::panic::set_hook(Box::new(|_| {}));      // panics are caught and reported per input
+    }
     let args: Vec<String> = std::env::args().collect();
     match args.get(1).map(|s| s.as_str()) {
         Some("trim") => trim(&args[2]),
         Some("c06bound") => c06bound(args.get(2).map(|x| x.parse().unwrap()).unwrap_or(6)),
+        Some("c03long") => c03long(args.get(2).map(|x| x.parse().unwrap()).unwrap_or(300)),
         Some("c05bound") => c05bound(args.get(2).map(|x| x.parse().unwrap()).unwrap_or(6)),
         Some("parse") => parse(&args[2], args.get(3).map(|s| s.as_str())),
         Some("k8src") => print!("{}", k8_source(args[2].parse().unwrap())),
@@ -132,9 +143,10 @@ fn c06bound(n: usize) {
         if !may_reject {
             *must += 1;
             let s = std::str::from_utf8(buf).unwrap();
-            match preprocess_str(s, PathBuf::from("t.sv"), defines, &[""], false, false, 0, 0) {
-                Ok((t, _)) => { if !k34 && t.text() != s && bad.len() < 5 { bad.push(format!("CHANGED {:?} -> {:?}", s, t.text())); } }
-                Err(e) => { if bad.len() < 5 { bad.push(format!("REJECTED {:?}: {:?}", s, e)); } }
+            match guarded(|| preprocess_str(s, PathBuf::from("t.sv"), defines, &[""], false, false, 0, 0)) {
+                Ok(Ok((t, _))) => { if !k34 && t.text() != s && bad.len() < 5 { bad.push(format!("CHANGED {:?} -> {:?}", s, t.text())); } }
+                Ok(Err(e)) => { if bad.len() < 5 { bad.push(format!("REJECTED {:?}: {:?}", s, e)); } }
+                Err(m) => { if bad.len() < 5 { bad.push(format!("REJECTED {:?}: PANIC {}", s, m)); } }
             }
         }
         if buf.len() < n {
@@ -143,6 +155,40 @@ fn c06bound(n: usize) {
     }
     rec(&mut buf, n, &sigma, &defines, &mut total, &mut must, &mut bad);
     println!("C06BOUND n={} texts={} must_accept={} bad={}", n, total, must, bad.len());
+    for b in bad { println!("  {}", b); }
+}
+
+/// BOUNDED stand-in for assumption A-btree (never counted as proved): a directive-free text of n tokens makes
+/// PreprocessedText hold 2n segments in std's BTreeMap<Range, Origin> (many node splits); every output
+/// position must come back from origin() as the same offset of the same file.
+fn c03long(n: usize) {
+    let defines: HashMap<String, Option<Define>> = HashMap::new();
+    let mut s = String::new();
+    for i in 0..n {
+        for _ in 0..(1 + i % 3) { s.push('a'); }
+        // a comment ends the run of ordinary text: every token gives two segments (text, comment)
+        s.push_str(match i % 4 { 0 => " /*c*/ ", 1 => "// x\n", 2 => "  /**/", _ => " \n /* y */\n " });
+    }
+    let mut bad: Vec<String> = vec![];
+    let mut probes: u64 = 0;
+    match guarded(|| preprocess_str(&s, PathBuf::from("t.sv"), &defines, &[""], false, false, 0, 0)) {
+        Ok(Ok((t, _))) => {
+            if t.text() != s { bad.push(format!("CHANGED text of {} tokens", n)); }
+            for pos in 0..s.len() {
+                probes += 1;
+                match guarded(|| t.origin(pos).map(|(p, q)| (p.clone(), q))) {
+                    Ok(Some((p, q))) if p == PathBuf::from("t.sv") && q == pos => (),
+                    Ok(other) => { if bad.len() < 5 { bad.push(format!("ORIGIN {:?} -> {:?}", pos, other)); } }
+                    Err(m) => { if bad.len() < 5 { bad.push(format!("ORIGIN {:?} -> PANIC {}", pos, m)); } }
+                }
+            }
+            probes += 1;
+            if guarded(|| t.origin(s.len() + 1).is_some()).unwrap_or(true) && bad.len() < 5 { bad.push(format!("ORIGIN {:?} -> Some (or panic) past the end", s.len() + 1)); }
+        }
+        Ok(Err(e)) => bad.push(format!("REJECTED text of {} tokens: {:?}", n, e)),
+        Err(m) => bad.push(format!("REJECTED text of {} tokens: PANIC {}", n, m)),
+    }
+    println!("C03LONG n={} texts={} must_accept={} bad={}", n, probes, probes, bad.len());
     for b in bad { println!("  {}", b); }
 }
 
@@ -207,7 +253,10 @@ fn c05bound(n: usize) {
     for x in &xs {
         let parts = c05_split(x);
         let src = format!("`define M(a,b) <a|b>\n`M({})\n", x);
-        let r = preprocess_str(&src, PathBuf::from("t.sv"), &defines, &[""], false, false, 0, 0);
+        let r = match guarded(|| preprocess_str(&src, PathBuf::from("t.sv"), &defines, &[""], false, false, 0, 0)) {
+            Ok(r) => r,
+            Err(m) => { checked += 1; if bad.len() < 5 { bad.push(format!("ARGS {:?}: PANIC {}", x, m)); } continue; }
+        };
         checked += 1;
         let ok = if parts.len() == 1 {
             matches!(&r, Err(sv_parser::Error::DefineArgNotFound(f)) if f == "b")
